@@ -15,6 +15,7 @@
    further down, finally Model.step, which takes no argument.  Python's call protocol rejects a wrong number
    of arguments with TypeError before the body runs.  Definitions only. *)
 From Coq Require Import ZArith List Bool.
+From Mesa Require Import Model.C3.
 Import ListNotations.
 Open Scope Z_scope.
 
@@ -106,7 +107,10 @@ Fixpoint resolve (h : hierarchy) (idx : Z) : option (Z * level) :=
 
 (* ---------- several classes, several instances ---------- *)
 Record inst := { i_cls : Z; i_st : mstate }.
-Record world := { w_classes : list hierarchy; w_insts : list inst }.
+(* w_bases: for each class, the base lists of its levels when it is built with multiple inheritance ([] = a plain
+   single-inheritance chain).  A hierarchy is USED as its MRO; NewInstance checks with the C3 merge (Model/C3.v) that
+   the MRO of the declared base lists really is the order in which the levels are listed. *)
+Record world := { w_classes : list hierarchy; w_bases : list (list (list Z)); w_insts : list inst }.
 
 Definition znth {A : Type} (l : list A) (i : Z) : option A :=
   if i <? 0 then None else nth_error l (Z.to_nat i).
@@ -117,7 +121,8 @@ Fixpoint upd {A : Type} (n : nat) (v : A) (l : list A) : list A :=
   | x :: t, S n' => x :: upd n' v t
   end.
 Definition set_inst (w : world) (i : Z) (st : mstate) (c : Z) : world :=
-  {| w_classes := w_classes w; w_insts := upd (Z.to_nat i) {| i_cls := c; i_st := st |} (w_insts w) |}.
+  {| w_classes := w_classes w; w_bases := w_bases w;
+     w_insts := upd (Z.to_nat i) {| i_cls := c; i_st := st |} (w_insts w) |}.
 
 Inductive op :=
 | NewInstance (c : Z)                 (* cls() *)
@@ -151,7 +156,12 @@ Definition step_op (w : world) (o : op) : world * list Z :=
       match znth (w_classes w) c with
       | None => (w, OBS_NOOP)
       | Some _ =>
-          ({| w_classes := w_classes w;
+          if negb (match znth (w_bases w) c with
+                   | Some (b :: bs) => mro_is_level_order (b :: bs)
+                   | _ => true
+                   end) then (w, [-3])
+          else
+          ({| w_classes := w_classes w; w_bases := w_bases w;
               w_insts := w_insts w ++ [{| i_cls := c; i_st := {| steps := 0; running := true |} |}] |},
            [zlen (w_insts w)])
       end
@@ -194,6 +204,7 @@ Fixpoint run_ops (w : world) (ops : list op) : list (list Z) :=
 
 Definition final (w : world) (ops : list op) : world := fold_left (fun w o => fst (step w o)) ops w.
 
-Record case := { c_classes : list hierarchy; c_ops : list op }.
-Definition init (cs : list hierarchy) : world := {| w_classes := cs; w_insts := [] |}.
-Definition run_case (c : case) : list (list Z) := run_ops (init (c_classes c)) (c_ops c).
+Record case := { c_classes : list hierarchy; c_bases : list (list (list Z)); c_ops : list op }.
+Definition init (cs : list hierarchy) (bs : list (list (list Z))) : world :=
+  {| w_classes := cs; w_bases := bs; w_insts := [] |}.
+Definition run_case (c : case) : list (list Z) := run_ops (init (c_classes c) (c_bases c)) (c_ops c).
